@@ -647,6 +647,13 @@ func FuncName(pkg *types.Package, name string, recv *types.Var, org bool) string
 			} else {
 				tName = abi.NamedName(named)
 			}
+			if tpkg := named.Obj().Pkg(); tpkg != nil && pkg != nil && tpkg != pkg {
+				// a wrapper (method-expression thunk, bound method) emitted by
+				// the package that uses a method of an imported type: keep the
+				// type's own package in the name, the bare type name may also
+				// name a type of the emitting package or of another import
+				tName = PathOf(tpkg) + "." + tName
+			}
 			if ptr {
 				tName = "(*" + tName + ")"
 			}
